@@ -43,7 +43,7 @@ func init() {
 		Run: run,
 		Floors: func(t string) map[string]int64 {
 			return map[string]int64{"pt.on_vertex": 1000, "pt.on_closing_segment_of_unclosed_ring": 200, "pt.on_horizontal_edge": 500, "pt.ray_through_vertex": 1000,
-				"pt.inside_two_members": 100, "answer.inside": 1000, "answer.outside": 1000, "answer.onedge": 1000, "recv.outside": 200, "recv.not_outside": 200, "float.judged": 1000, "arg.*Bounds": 100}
+				"pt.inside_two_members": 100, "answer.inside": 1000, "answer.outside": 1000, "answer.onedge": 1000, "recv.outside": 200, "recv.not_outside": 200, "float.judged": 1000, "float.ray_grazes_one_ulp_edge": 1000, "arg.*Bounds": 100}
 		},
 		Exhaustive: func(t string) bool { return false },
 	})
@@ -315,6 +315,36 @@ func runFloat(c *core.Ctx) {
 		}
 		polys = append(polys, pg)
 	}
+	// near-horizontal edges: make a vertex's ordinate differ from its
+	// neighbour's by exactly one ulp (the ray of a point at that ordinate then
+	// grazes both ends of an edge)
+	var ulpYs []float64
+	if r.Chance(0.5) {
+		for _, pg := range polys {
+			for _, ring := range pg {
+				n := len(ring)
+				closed := n > 1 && ring[0] == ring[n-1]
+				if closed {
+					n--
+				}
+				if n < 3 || !r.Chance(0.7) {
+					continue
+				}
+				i := r.Intn(n)
+				j := (i + 1) % n
+				dir := math.Inf(1)
+				if r.Bool() {
+					dir = math.Inf(-1)
+				}
+				ring[j].Y = math.Nextafter(ring[i].Y, dir)
+				if closed {
+					ring[len(ring)-1] = ring[0]
+				}
+				ulpYs = append(ulpYs, ring[i].Y, ring[j].Y)
+				c.Count("float.one_ulp_edge")
+			}
+		}
+	}
 	var pgl geom.Polygonal
 	if nm == 1 {
 		pgl = polys[0]
@@ -332,6 +362,10 @@ func runFloat(c *core.Ctx) {
 			ring := v[r.Intn(len(v))]
 			p.Y = ring[r.Intn(len(ring))].Y
 			c.Count("float.ray_through_vertex")
+		}
+		if len(ulpYs) > 0 && r.Chance(0.4) {
+			p.Y = ulpYs[r.Intn(len(ulpYs))]
+			c.Count("float.ray_grazes_one_ulp_edge")
 		}
 		if exact.DistToRings(gen.EP(p), rings) < 1e-9*diam {
 			c.Count("float.rejected_too_close")
